@@ -834,6 +834,32 @@ def spf_term_spellings(ctx, report, rule='C18.R8'):
                     if not isinstance(got, Parser) or got.pos != len(q + sp):
                         report.add(rule, '%s@mechanism-case' % f.construct, 'after %r the parser stands at %s, expected %d' % (q + sp, getattr(got, 'pos', None), len(q + sp)))
                         raise StopIteration
+        # (a2) a term that belongs to another mechanism is *declined* (InvalidType), whatever its length and qualifier: the term loop
+        # tries the classes one after the other, any other error ends the whole record - also for the short terms at its end
+        for mech in mechs:
+            for term in ('mx', '?mx', '-mx', 'a', '+a', '?a', '~all', 'all', 'ip4:1.2.3.4', '-ptr', 'exists:x'):
+                if term.lstrip('+-~?').split(':')[0].startswith(mech):
+                    continue        # the name (or a name that begins like it: the class's own _parse sorts that out) 
+                report.count(rule)
+
+                def extra(n, ev, mech=mech):
+                    d = ast.unparse(n.func)
+                    if d == 'ParserText':
+                        return Parser(ev.ev(n.args[0]))
+                    if d.endswith('get_mechanism'):
+                        return Obj(value=Obj(code=mech))
+                    return NotImplemented
+                hook = class_call_hook(base, extra, model)
+                ev = Evaluator({'parsable': term.encode('ascii')}, hook, hook.name_hook_for(base.module, None))
+                try:
+                    ev.function(f.node)
+                    outcome = 'accepted'
+                except Raised as e:
+                    outcome = e.what.split('(')[0].split('.')[-1]
+                if outcome != 'InvalidType':
+                    report.add(rule, '%s@declines' % f.construct, 'the term %r offered to the %r mechanism is %s instead of being declined (InvalidType): the record that '
+                               'ends with it is refused, the same record followed by a space is not; %s' % (term, mech, outcome, SPF_NAMES_REF))
+                    raise StopIteration
     except StopIteration:
         pass
     except Unsupported as e:
